@@ -83,13 +83,13 @@ CLAIMED = {
         ref='DESIGN.md section 4 C18'),
     "C13": dict(
         technique="Coq proof over an executable model of walk_tree/_traverse_tree/printer + model/implementation correspondence",
-        text=("coq/props/C13.v (15 theorems): TOTALITY ON DUMPS (first clause) as a theorem on the C05 fragment: for every value in c05_guard (containers, dict family, slices, names, arrays, sparse, dtype, masked, RNGs, partial, bytes / bytearray, object arrays of every rank; arbitrary sharing), every load environment of that archive, EVERY trusted list and ALL THREE show modes, the row generator and the default sink complete (C13_total_on_dumps_partial; D24 repaired in /repo: _traverse_tree skips everything below a hidden node); what is printed is the root row followed by the pre-order forest of rows with the subtree of every hidden row cut off: show=all everything, show=untrusted exactly the rows that are not fully safe, show=trusted the rows whose own type is trusted and whose ancestors below the root all are (proof: the tree built from a dumped state is ranked -- every object above its parts -- hence acyclic with bounded reference depth, every reference resolves, the audit of every node completes independently of fuel and call stack, the walk yields a safe-closed pre-order forest). MODE-INDEPENDENT WELL-FORMEDNESS: on EVERY pre-order row stream (each row at most one level below its predecessor) and every filter, _traverse_tree never raises its level-difference ValueError and prints again such a stream (C13_preorder_never_raises); on ANY row list a completed run printed exactly `shown` of the rows (C13_filter_respected); on a forest that is the forest with hidden subtrees pruned, a row is printed iff the filter admits it and all its ancestors (C13_hidden_subtrees_cut). AGREEMENT WITH THE AUDIT: whenever visualize completes (any archive, any trusted list, any show mode) what reaches the printer is the root row followed by rows each at most one level "
+        text=("coq/props/C13.v (19 theorems): TOTALITY ON DUMPS (first clause) as a theorem on the C05 fragment: for every value in c05_guard (containers, dict family, slices, names, arrays, sparse, dtype, masked, RNGs, partial, bytes / bytearray, object arrays of every rank; arbitrary sharing), every load environment of that archive, EVERY trusted list and ALL THREE show modes, the row generator and the default sink complete (C13_total_on_dumps_partial; D24 repaired in /repo: _traverse_tree skips everything below a hidden node); what is printed is the root row followed by the pre-order forest of rows with the subtree of every hidden row cut off: show=all everything, show=untrusted exactly the rows that are not fully safe, show=trusted the rows whose own type is trusted and whose ancestors below the root all are (proof: the tree built from a dumped state is ranked -- every object above its parts -- hence acyclic with bounded reference depth, every reference resolves, the audit of every node completes independently of fuel and call stack, the walk yields a safe-closed pre-order forest). MODE-INDEPENDENT WELL-FORMEDNESS: on EVERY pre-order row stream (each row at most one level below its predecessor) and every filter, _traverse_tree never raises its level-difference ValueError and prints again such a stream (C13_preorder_never_raises); on ANY row list a completed run printed exactly `shown` of the rows (C13_filter_respected); on a forest that is the forest with hidden subtrees pruned, a row is printed iff the filter admits it and all its ancestors (C13_hidden_subtrees_cut). AGREEMENT WITH THE AUDIT: whenever visualize completes (any archive, any trusted list, any show mode) what reaches the printer is the root row followed by rows each at most one level "
               "deeper than the previous one; every row carries the audit's own verdicts for its node (is_self_safe, and fully-safe iff the graph audit "
               "below it reports nothing); the root row is fully safe iff get_untrusted_types is empty for that trust setting; a row is tagged [UNSAFE] iff its own type is untrusted; "
               "a node of any kind except the protocol-0 FunctionNode that is not self-safe is never fully safe (C13_self_unsafe_not_safe); the former D31-SliceNode witness is reported (C13_slice_name_reported: get_untrusted_types = [x.y], load refuses, row and ancestors not fully safe); the former D24 witness ([functools.partial(np.add, 1)], show=trusted) is computed to completion (C13_trusted_witness_repaired). The model (lazy row stream, hidden_level state, key_types special case, SKIPPED kinds from the snapshot, Ref/cycle unrolling, the plain-text printer) "
-              "is compared with /repo on generated valid+malformed archives x trusted x show (printed text and raw rows); an oracle on the implementation's own output requires that a completed pre-order row stream never makes the default sink raise and that the printed lines are the rows admitted together with all their ancestors. Totality on real dumps is checked on generated values x 3 trust settings x 3 show modes (all nine required), visualized before and whatever load says."),
+              "is compared with /repo on generated valid+malformed archives x trusted x show (printed text and raw rows); an oracle on the implementation's own output requires that a completed pre-order row stream never makes the default sink raise and that the printed lines are the rows admitted together with all their ancestors. Totality on real dumps is checked on generated values x 3 trust settings x 3 show modes (all nine required), visualized before and whatever load says. TEXT: the plain printer shows every row on ONE line (C13-F2 / C13-F3 repaired in /repo: characters that are not printable are shown escaped): for every row list, any keys / type names / tags, number of lines = number of rows, every character of every line is printable (IoShow.isprintable: exact on a stated charset of 161,687 code points, conservative elsewhere), hence no str.splitlines separator, no surrogate, UTF-8-encodable; line i = drawing prefix ++ escaped text of row i; the output splits at LF into exactly the lines (C13_one_line_per_row, C13_printable_table); printable texts are shown unchanged (C13_escape_identity); the escape has a left inverse on texts without backslash (C13_escape_injective_on_lines; C13_escape_backslash_collides shows the guard is needed). The default sink is captured over a UTF-8 byte stream; a third of the generated archives carry unprintable characters in keys / attribute names / type names; the isprintable table is compared with str.isprintable over the whole charset on every run."),
         note=("Trusted: Coq kernel; snapshot (SKIPPED_TYPES); generator, runner. rich is absent here: colours not exercised. Open findings: "
-              "D31-FunctionNode@0 (the protocol-0 FunctionNode displays a name its audit ignores). D15 (slices, bound methods, state-less objects), D15c (key named key_types), D32 (untrusted key types), D31-SliceNode, D24 (show='trusted' level jump) and C13-F1 (rank-0 object arrays were dumped with a non-list content: visualize / get_untrusted_types / load raised AttributeError) were repaired in /repo."),
+              "D31-FunctionNode@0 (the protocol-0 FunctionNode displays a name its audit ignores). D15 (slices, bound methods, state-less objects), D15c (key named key_types), D32 (untrusted key types), D31-SliceNode, D24 (show='trusted' level jump), C13-F1 (rank-0 object arrays were dumped with a non-list content: visualize / get_untrusted_types / load raised AttributeError), C13-F2 (a key with a lone surrogate made the default sink raise UnicodeEncodeError) and C13-F3 (a key or type name with a line break forged rows) were repaired in /repo. rich is not installed: only the plain printer is modelled (the rich branch goes through the same _get_node_text)."),
         ref="DESIGN.md section 4 C13"),
     "C01": dict(
         technique="Coq proof (audit examines every node; every archive-named resolution is vouched) + traced-load correspondence + canary search",
